@@ -98,3 +98,187 @@ package encoder
 //@   proof cases t 0 15, i 1 68
 //@   requires i <= factorSets[t]
 //@   ensures evalF(t, 0, pw2(i)) == 0
+
+// the decoder's version table (48 entries: the 30 ECC 200 sizes followed by the DMRE extension sizes) describes the same 30
+// symbols as the encoder's symbol table: for every encoder entry there is a decoder version among the first 30 of the same symbol size with the same data-region size, total codewords, parity per block and block structure
+//@ lemma versionsAgree(k int)
+//@   property C08
+//@   globals symbols, decoder.versions
+//@   opt nia=on
+//@   proof cases k 0 29
+//@   let s = symbols[k]
+//@   ensures len(decoder.versions) == 48
+//@   ensures exists j int :: 0 <= j && j < 30 && decoder.versions[j] != nil && decoder.versions[j].versionNumber == j + 1 && decoder.versions[j].symbolSizeRows == symH(s) && decoder.versions[j].symbolSizeColumns == symW(s) && decoder.versions[j].dataRegionSizeRows == s.matrixHeight && decoder.versions[j].dataRegionSizeColumns == s.matrixWidth && decoder.versions[j].totalCodewords == s.dataCapacity + s.errorCodewords && decoder.versions[j].ecBlocks.ecCodewords == s.rsBlockError && (k < 29 ==> len(decoder.versions[j].ecBlocks.ecBlocks) == 1 && decoder.versions[j].ecBlocks.ecBlocks[0].count == s.dataCapacity / s.rsBlockData && decoder.versions[j].ecBlocks.ecBlocks[0].dataCodewords == s.rsBlockData) && (k == 29 ==> len(decoder.versions[j].ecBlocks.ecBlocks) == 2 && decoder.versions[j].ecBlocks.ecBlocks[0].count == 8 && decoder.versions[j].ecBlocks.ecBlocks[0].dataCodewords == 156 && decoder.versions[j].ecBlocks.ecBlocks[1].count == 2 && decoder.versions[j].ecBlocks.ecBlocks[1].dataCodewords == 155)
+
+// ---------------------------------------------------------------- ECC 200 module placement (ISO/IEC 16022 annex F), written from the standard
+//@ pred wfDP(p *DefaultPlacement) = p.numrows >= 1 && p.numcols >= 1 && len(p.bits) == p.numrows * p.numcols
+// wrapping of a module position that falls off the top or the left of the mapping matrix (F.3, "module" procedure)
+//@ spec func wrapR1(nr int, row int) int = row < 0 ? row + nr : row
+//@ spec func wrapC1(nr int, row int, col int) int = row < 0 ? col + 4 - (nr + 4) % 8 : col
+//@ spec func wrapR(nr int, nc int, row int, col int) int = wrapC1(nr, row, col) < 0 ? wrapR1(nr, row) + 4 - (nc + 4) % 8 : wrapR1(nr, row)
+//@ spec func wrapC(nr int, nc int, row int, col int) int = wrapC1(nr, row, col) < 0 ? wrapC1(nr, row, col) + nc : wrapC1(nr, row, col)
+//@ lemma cellIdx(y int, h int, w int, x int)
+//@   property C08
+//@   opt nia=on
+//@   requires 0 <= y && y < h && 0 <= x && x < w
+//@   ensures 0 <= y*w + x && y*w + x < h*w
+// module(row, col, pos, bit) stores bit number `bit` (1 = most significant) of codeword pos at the wrapped position and nothing else
+//@ func (this *DefaultPlacement) module(row int, col int, pos int, bit int)
+//@   property C08
+//@   let R = wrapR(this.numrows, this.numcols, row, col)
+//@   let C = wrapC(this.numrows, this.numcols, row, col)
+//@   requires wfDP(this) && 0 <= pos && pos < len(this.codewords) && 1 <= bit && bit <= 8 && 0 <= R && R < this.numrows && 0 <= C && C < this.numcols
+//@   use cellIdx(R, this.numrows, this.numcols, C)
+//@   ensures int(this.bits[R * this.numcols + C]) == (wordbit(this.codewords[pos], 8 - bit) ? 1 : 0)
+//@   ensures forall k int :: 0 <= k && k < len(this.bits) && k != R * this.numcols + C ==> this.bits[k] == old(this.bits[k])
+//@   modifies this.bits[*]
+//@ pred inMat(p *DefaultPlacement, row int, col int) = 0 <= wrapR(p.numrows, p.numcols, row, col) && wrapR(p.numrows, p.numcols, row, col) < p.numrows && 0 <= wrapC(p.numrows, p.numcols, row, col) && wrapC(p.numrows, p.numcols, row, col) < p.numcols
+// the eight modules of a regular ("utah") symbol character and of the four corner cases, bit 1..8 (figures F.1-F.6)
+//@ func (this *DefaultPlacement) utah(row int, col int, pos int)
+//@   property C08
+//@   requires wfDP(this) && 0 <= pos && pos < len(this.codewords) && inMat(this, row-2, col-2) && inMat(this, row-2, col-1) && inMat(this, row-1, col-2) && inMat(this, row-1, col-1) && inMat(this, row-1, col) && inMat(this, row, col-2) && inMat(this, row, col-1) && inMat(this, row, col)
+//@   modifies this.bits[*]
+//@   assert call(module,0): arg1 == row-2 && arg2 == col-2 && arg3 == pos && arg4 == 1
+//@   assert call(module,1): arg1 == row-2 && arg2 == col-1 && arg3 == pos && arg4 == 2
+//@   assert call(module,2): arg1 == row-1 && arg2 == col-2 && arg3 == pos && arg4 == 3
+//@   assert call(module,3): arg1 == row-1 && arg2 == col-1 && arg3 == pos && arg4 == 4
+//@   assert call(module,4): arg1 == row-1 && arg2 == col && arg3 == pos && arg4 == 5
+//@   assert call(module,5): arg1 == row && arg2 == col-2 && arg3 == pos && arg4 == 6
+//@   assert call(module,6): arg1 == row && arg2 == col-1 && arg3 == pos && arg4 == 7
+//@   assert call(module,7): arg1 == row && arg2 == col && arg3 == pos && arg4 == 8
+//@ func (this *DefaultPlacement) corner1(pos int)
+//@   property C08
+//@   requires wfDP(this) && 0 <= pos && pos < len(this.codewords) && this.numrows >= 4 && this.numcols >= 4
+//@   modifies this.bits[*]
+//@   assert call(module,0): arg1 == this.numrows-1 && arg2 == 0 && arg3 == pos && arg4 == 1
+//@   assert call(module,1): arg1 == this.numrows-1 && arg2 == 1 && arg3 == pos && arg4 == 2
+//@   assert call(module,2): arg1 == this.numrows-1 && arg2 == 2 && arg3 == pos && arg4 == 3
+//@   assert call(module,3): arg1 == 0 && arg2 == this.numcols-2 && arg3 == pos && arg4 == 4
+//@   assert call(module,4): arg1 == 0 && arg2 == this.numcols-1 && arg3 == pos && arg4 == 5
+//@   assert call(module,5): arg1 == 1 && arg2 == this.numcols-1 && arg3 == pos && arg4 == 6
+//@   assert call(module,6): arg1 == 2 && arg2 == this.numcols-1 && arg3 == pos && arg4 == 7
+//@   assert call(module,7): arg1 == 3 && arg2 == this.numcols-1 && arg3 == pos && arg4 == 8
+//@ func (this *DefaultPlacement) corner2(pos int)
+//@   property C08
+//@   requires wfDP(this) && 0 <= pos && pos < len(this.codewords) && this.numrows >= 4 && this.numcols >= 4
+//@   modifies this.bits[*]
+//@   assert call(module,0): arg1 == this.numrows-3 && arg2 == 0 && arg3 == pos && arg4 == 1
+//@   assert call(module,1): arg1 == this.numrows-2 && arg2 == 0 && arg3 == pos && arg4 == 2
+//@   assert call(module,2): arg1 == this.numrows-1 && arg2 == 0 && arg3 == pos && arg4 == 3
+//@   assert call(module,3): arg1 == 0 && arg2 == this.numcols-4 && arg3 == pos && arg4 == 4
+//@   assert call(module,4): arg1 == 0 && arg2 == this.numcols-3 && arg3 == pos && arg4 == 5
+//@   assert call(module,5): arg1 == 0 && arg2 == this.numcols-2 && arg3 == pos && arg4 == 6
+//@   assert call(module,6): arg1 == 0 && arg2 == this.numcols-1 && arg3 == pos && arg4 == 7
+//@   assert call(module,7): arg1 == 1 && arg2 == this.numcols-1 && arg3 == pos && arg4 == 8
+//@ func (this *DefaultPlacement) corner3(pos int)
+//@   property C08
+//@   requires wfDP(this) && 0 <= pos && pos < len(this.codewords) && this.numrows >= 4 && this.numcols >= 4
+//@   modifies this.bits[*]
+//@   assert call(module,0): arg1 == this.numrows-3 && arg2 == 0 && arg3 == pos && arg4 == 1
+//@   assert call(module,1): arg1 == this.numrows-2 && arg2 == 0 && arg3 == pos && arg4 == 2
+//@   assert call(module,2): arg1 == this.numrows-1 && arg2 == 0 && arg3 == pos && arg4 == 3
+//@   assert call(module,3): arg1 == 0 && arg2 == this.numcols-2 && arg3 == pos && arg4 == 4
+//@   assert call(module,4): arg1 == 0 && arg2 == this.numcols-1 && arg3 == pos && arg4 == 5
+//@   assert call(module,5): arg1 == 1 && arg2 == this.numcols-1 && arg3 == pos && arg4 == 6
+//@   assert call(module,6): arg1 == 2 && arg2 == this.numcols-1 && arg3 == pos && arg4 == 7
+//@   assert call(module,7): arg1 == 3 && arg2 == this.numcols-1 && arg3 == pos && arg4 == 8
+//@ func (this *DefaultPlacement) corner4(pos int)
+//@   property C08
+//@   requires wfDP(this) && 0 <= pos && pos < len(this.codewords) && this.numrows >= 4 && this.numcols >= 4
+//@   modifies this.bits[*]
+//@   assert call(module,0): arg1 == this.numrows-1 && arg2 == 0 && arg3 == pos && arg4 == 1
+//@   assert call(module,1): arg1 == this.numrows-1 && arg2 == this.numcols-1 && arg3 == pos && arg4 == 2
+//@   assert call(module,2): arg1 == 0 && arg2 == this.numcols-3 && arg3 == pos && arg4 == 3
+//@   assert call(module,3): arg1 == 0 && arg2 == this.numcols-2 && arg3 == pos && arg4 == 4
+//@   assert call(module,4): arg1 == 0 && arg2 == this.numcols-1 && arg3 == pos && arg4 == 5
+//@   assert call(module,5): arg1 == 1 && arg2 == this.numcols-3 && arg3 == pos && arg4 == 6
+//@   assert call(module,6): arg1 == 1 && arg2 == this.numcols-2 && arg3 == pos && arg4 == 7
+//@   assert call(module,7): arg1 == 1 && arg2 == this.numcols-1 && arg3 == pos && arg4 == 8
+
+// ---------------------------------------------------------------- Reed-Solomon parity blocks and their interleaving (ISO/IEC 16022 5.7, annex E)
+//@ func createECCBlock(codewords []byte, numECWords int) (r []byte, e error)
+//@   property C08 C12
+//@   mode bv
+//@   globals factorSets, factors, log, alog
+//@   ensures (forall t int :: 0 <= t && t < 16 ==> factorSets[t] != numECWords) == (e != nil)
+//@   ensures e == nil ==> len(r) == numECWords && fresh(r)
+//@   modifies nothing
+//@   loop 0: invariant 0 <= i && i <= 16 && table == -1 && (forall t int :: 0 <= t && t < i ==> factorSets[t] != numECWords)
+//@   loop 0: decreases 16 - i
+//@   loop 1: invariant 0 <= i && i <= len(codewords) && len(ecc) == numECWords && fresh(ecc) && 0 <= table && table < 16 && factorSets[table] == numECWords && len(poly) == numECWords && poly == factors[table]
+//@   loop 1: invariant forall j int :: 0 <= j && j < numECWords ==> 0 <= ecc[j] && ecc[j] <= 255
+//@   loop 1: decreases len(codewords) - i
+//@   loop 2: invariant 0 <= k && k <= numECWords - 1 && 0 <= m && m <= 255 && len(ecc) == numECWords && fresh(ecc) && len(poly) == numECWords && poly == factors[table] && 0 <= table && table < 16 && 0 <= i && i < len(codewords)
+//@   loop 2: invariant forall j int :: 0 <= j && j < numECWords ==> 0 <= ecc[j] && ecc[j] <= 255
+//@   loop 2: decreases k
+//@   loop 3: invariant 0 <= i && i <= numECWords && len(eccReversed) == numECWords && fresh(eccReversed) && len(ecc) == numECWords
+//@   loop 3: decreases numECWords - i
+
+//@ pred inFactorSets(n int) = n == 5 || n == 7 || n == 10 || n == 11 || n == 12 || n == 14 || n == 18 || n == 20 || n == 24 || n == 28 || n == 36 || n == 42 || n == 48 || n == 56 || n == 62 || n == 68
+// the two kinds of table entries: equal-sized interleaved blocks computed from the entry, and the 144x144 symbol (8 blocks of 156 + 2 of 155)
+//@ pred symStd(s *SymbolInfo) = s.funcGetInterleavedBlockCount == funcref(defaultGetInterleavedBlockCount) && s.funcGetDataLengthForInterleavedBlock == funcref(defaultGetDataLengthForInterleavedBlock) && s.rsBlockData >= 1 && s.dataCapacity >= s.rsBlockData && s.dataCapacity % s.rsBlockData == 0 && (s.dataCapacity / s.rsBlockData) * s.rsBlockError == s.errorCodewords
+//@ pred sym144(s *SymbolInfo) = s.funcGetInterleavedBlockCount == funcref(datamatrixSymbolInfo144_getInterleavedBlockCount) && s.funcGetDataLengthForInterleavedBlock == funcref(datamatrixSymbolInfo144_getDataLengthForInterleavedBlock) && s.dataCapacity == 1558 && s.rsBlockError == 62 && s.errorCodewords == 620
+//@ pred wfSym(s *SymbolInfo) = s.rsBlockError >= 1 && inFactorSets(s.rsBlockError) && s.dataCapacity >= 1 && s.errorCodewords >= 1 && (symStd(s) || sym144(s))
+//@ spec func nblk(s *SymbolInfo) int = sym144(s) ? 10 : s.dataCapacity / s.rsBlockData
+//@ lemma symbolsWf(k int)
+//@   property C08
+//@   globals symbols
+//@   opt nia=on
+//@   proof cases k 0 29
+//@   ensures symbols[k] != nil && wfSym(symbols[k]) && (nblk(symbols[k]) == 1 ==> inFactorSets(symbols[k].errorCodewords))
+
+//@ lemma mulSuccE(a int, b int)
+//@   property C08 C12
+//@   opt nia=on
+//@   ensures (a + 1) * b == a * b + b
+//@ lemma mulLtCancelE(a int, b int, c int)
+//@   property C08 C12
+//@   opt nia=on
+//@   requires c > 0 && a * c < b * c
+//@   ensures a < b
+//@ lemma mulEqE(a int, b int, x int, y int)
+//@   property C08 C12
+//@   opt nia=on
+//@   requires a == x && b == y
+//@   ensures a * b == x * y
+// position b + a*c with 0 <= b < c and a < n lies below n*c
+//@ lemma mulLtE(a int, n int, c int, b int)
+//@   property C08 C12
+//@   opt nia=on
+//@   requires 0 <= b && b < c && 0 <= a && a < n
+//@   ensures b + a * c < n * c
+// ErrorCorrection_EncodeECC200: data codewords first, unchanged; codeword d belongs to block d mod B; each block's parity is
+// computed from exactly its own codewords, in order; parity codeword j of block b is stored at dataCapacity + b + j*B
+//@ func ErrorCorrection_EncodeECC200(codewords []byte, symbolInfo *SymbolInfo) (r []byte, e error)
+//@   property C08 C12
+//@   globals factorSets
+//@   requires symbolInfo != nil && wfSym(symbolInfo) && (nblk(symbolInfo) == 1 ==> inFactorSets(symbolInfo.errorCodewords))
+//@   ensures (len(codewords) != symbolInfo.dataCapacity) == (e != nil)
+//@   ensures e == nil ==> len(r) == symbolInfo.dataCapacity + symbolInfo.errorCodewords && fresh(r)
+//@   ensures e == nil ==> forall k int :: 0 <= k && k < len(codewords) ==> r[k] == codewords[k]
+//@   modifies nothing
+//@   let B = nblk(symbolInfo)
+//@   let DC = symbolInfo.dataCapacity
+//@   loop 0: invariant 0 <= i && i <= blockCount && blockCount == B && len(dataSizes) == blockCount && len(errorSizes) == blockCount && fresh(dataSizes) && fresh(errorSizes) && fresh(sb) && len(sb) == DC + symbolInfo.errorCodewords && len(codewords) == DC
+//@   loop 0: invariant (forall j int :: 0 <= j && j < i ==> errorSizes[j] == symbolInfo.rsBlockError && dataSizes[j] >= 1) && (forall k int :: 0 <= k && k < DC ==> sb[k] == codewords[k])
+//@   loop 0: decreases blockCount - i
+//@   loop 1: invariant 0 <= block && block <= blockCount && blockCount == B && blockCount >= 2 && len(dataSizes) == blockCount && len(errorSizes) == blockCount && fresh(dataSizes) && fresh(errorSizes) && fresh(sb) && len(sb) == DC + symbolInfo.errorCodewords && len(codewords) == DC
+//@   loop 1: invariant (forall j int :: 0 <= j && j < blockCount ==> errorSizes[j] == symbolInfo.rsBlockError && dataSizes[j] >= 1) && (forall k int :: 0 <= k && k < DC ==> sb[k] == codewords[k])
+//@   loop 1: decreases blockCount - block
+//@   loop 2: invariant 0 <= block && block < blockCount && blockCount == B && blockCount >= 2 && len(codewords) == DC && d == block + len(temp) * blockCount && d >= block && fresh(temp) && fresh(sb) && arr(temp) != arr(sb) && len(sb) == DC + symbolInfo.errorCodewords
+//@   loop 2: invariant (len(temp) >= 1 ==> block + (len(temp) - 1) * blockCount < DC) && (forall k int :: 0 <= k && k < len(temp) ==> temp[k] == codewords[block + k * blockCount])
+//@   loop 2: invariant forall k int :: 0 <= k && k < DC ==> sb[k] == codewords[k]
+//@   loop 2: use mulSuccE(len(temp), blockCount)
+//@   loop 2: use mulSuccE(len(temp) - 1, blockCount)
+//@   loop 2: decreases DC - d
+//@   loop 3: invariant 0 <= block && block < blockCount && blockCount == B && blockCount >= 2 && e == block + pos * blockCount && e >= block && 0 <= pos && pos <= symbolInfo.rsBlockError && len(ecc) == symbolInfo.rsBlockError && fresh(ecc) && fresh(sb) && len(sb) == DC + symbolInfo.errorCodewords && len(codewords) == DC
+//@   loop 3: invariant forall k int :: 0 <= k && k < DC ==> sb[k] == codewords[k]
+//@   loop 3: invariant errorSizes[block] == symbolInfo.rsBlockError && len(errorSizes) == blockCount
+//@   loop 3: use mulSuccE(pos, blockCount)
+//@   loop 3: use mulEqE(symbolInfo.rsBlockError, blockCount, 62, 10)
+//@   loop 3: use mulLtCancelE(pos, symbolInfo.rsBlockError, blockCount)
+//@   loop 3: use mulLtE(pos, symbolInfo.rsBlockError, blockCount, block)
+//@   loop 3: decreases symbolInfo.rsBlockError * blockCount - e
+//@   assert call(createECCBlock,1): len(temp) >= 1 && block + (len(temp) - 1) * blockCount < symbolInfo.dataCapacity && block + len(temp) * blockCount >= symbolInfo.dataCapacity
+//@   assert call(createECCBlock,1): forall k int :: 0 <= k && k < len(temp) ==> temp[k] == codewords[block + k * blockCount]
+//@   assert call(createECCBlock,1): arg1 == symbolInfo.rsBlockError
